@@ -20,6 +20,8 @@ pub const SYS: usize = 0;
 pub const GUARD_LEFT: usize = 1;
 pub const GUARD_RIGHT: usize = 2;
 pub const FAIL: usize = 3;
+/// like FAIL, but only tape-growth requests (hook IN_TAPE_GROWTH) are counted
+pub const FAIL_TAPE: usize = 4;
 
 pub struct VAlloc;
 
@@ -130,8 +132,9 @@ unsafe impl GlobalAlloc for VAlloc {
             match MODE.load(SeqCst) {
                 GUARD_LEFT => return guard_alloc(layout, false),
                 GUARD_RIGHT => return guard_alloc(layout, true),
-                FAIL => {
-                    if layout.size() >= FAIL_MIN.load(SeqCst) {
+                m @ (FAIL | FAIL_TAPE) => {
+                    let counted = m == FAIL || hpbf::verif::IN_TAPE_GROWTH.load(SeqCst);
+                    if counted && layout.size() >= FAIL_MIN.load(SeqCst) {
                         let n = COUNT.fetch_add(1, SeqCst);
                         if n == FAIL_K.load(SeqCst) {
                             FAILED.fetch_add(1, SeqCst);
@@ -151,7 +154,7 @@ unsafe impl GlobalAlloc for VAlloc {
     unsafe fn alloc_zeroed(&self, layout: Layout) -> *mut u8 {
         if ARMED.load(SeqCst) && MODE.load(SeqCst) != SYS {
             let p = self.alloc(layout);
-            if !p.is_null() && MODE.load(SeqCst) == FAIL {
+            if !p.is_null() && matches!(MODE.load(SeqCst), FAIL | FAIL_TAPE) {
                 std::ptr::write_bytes(p, 0, layout.size());
             }
             // guarded regions come zeroed from mmap
